@@ -346,7 +346,7 @@ static void script_builder(const std::vector<std::string>& t) {
 // S vm <mask> <ops...>   m<KiB> VirtMem::alloc   d<KiB> VirtMem::alloc_dual_mapping   u<i> release handle i
 //                         j<KiB> JitAllocator::alloc (allocator with kUseDualMapping when the kind is "vmd")   k<i> release span i
 // mask: none | v:<pattern> (VM requests = mmap calls of the script) | h:<pattern> (heap requests = malloc/calloc/realloc)
-static void script_vm(const std::vector<std::string>& t, bool dual_alloc) {
+static void script_vm(const std::vector<std::string>& t, bool dual_alloc, bool jit_kind = false) {
   struct Handle { int kind; void* p; VirtMem::DualMapping dm; size_t size; bool live; };
   std::vector<Handle> hs;
   std::vector<void*> spans;
@@ -355,7 +355,7 @@ static void script_vm(const std::vector<std::string>& t, bool dual_alloc) {
   params.options = dual_alloc ? JitAllocatorOptions::kUseDualMapping : JitAllocatorOptions::kNone;
   params.block_size = 65536;
   long h0 = F.live_heap, m0 = F.live_maps, fd0 = count_open_fds();
-  std::string out = dual_alloc ? "S vmd" : "S vm";
+  std::string out = jit_kind ? (dual_alloc ? "S jitd" : "S jit") : (dual_alloc ? "S vmd" : "S vm");
   std::string req_s;
   {
     JitAllocator al(&params);
@@ -395,7 +395,7 @@ static void script_vm(const std::vector<std::string>& t, bool dual_alloc) {
           }
           else r = 2;
           break;
-        case 'j': { JitAllocator::Span sp; r = err_code(al.alloc(Out(sp), arg * 1024)); spans.push_back(r == 0 ? sp.rx() : nullptr); break; }
+        case 'j': { JitAllocator::Span sp; r = err_code(al.alloc(Out(sp), arg)); spans.push_back(r == 0 ? sp.rx() : nullptr); break; }
         case 'k':
           if (arg < spans.size() && spans[arg]) { r = err_code(al.release(spans[arg])); spans[arg] = nullptr; }
           else r = 2;
@@ -404,7 +404,8 @@ static void script_vm(const std::vector<std::string>& t, bool dual_alloc) {
       }
       F.armed = false;
       char buf[96];
-      snprintf(buf, sizeof(buf), " %d/%ld/%ld", r, F.live_maps - m0, F.live_heap - hbase);
+      if (jit_kind) snprintf(buf, sizeof(buf), " %d/%ld/%ld/%zu", r, F.live_maps - m0, F.live_heap - hbase, al.statistics().block_count());
+      else snprintf(buf, sizeof(buf), " %d/%ld/%ld", r, F.live_maps - m0, F.live_heap - hbase);
       out += buf;
     }
     req_s = " req=" + std::to_string(F.n_vm) + "," + std::to_string(F.n_heap);
@@ -469,6 +470,52 @@ static void script_ra(const std::vector<std::string>& t) {
   for (RAWorkReg* p : wr) delete p;
 }
 
+// S str <mask> <ops...>   a<hex> append   s<hex> assign   c<n> append_chars('z', n)   C<n> assign_chars('z', n)   x clear   r reset
+//                          t<n> truncate          mask: none | h:<pattern> on the heap requests (malloc) of the script
+static void script_str(const std::vector<std::string>& t) {
+  std::string out = "S str";
+  long nheap = 0;
+  {
+    String st;
+    F.reset_counters();
+    const std::string& m = t[2];
+    if (m == "none") F.mode = FM_NONE;
+    else if (m.size() > 2 && m[0] == 'h' && m[1] == ':' && parse_pattern(m.c_str() + 2)) F.mode = FM_HEAP;
+    else { printf("BAD mask\n"); return; }
+    for (size_t i = 3; i < t.size(); i++) {
+      const char* s = t[i].c_str();
+      std::string d;
+      for (size_t j = 1; s[j] && s[j + 1]; j += 2) { char hx[3] = {s[j], s[j + 1], 0}; d.push_back(char(strtoul(hx, nullptr, 16))); }
+      size_t n = size_t(strtoul(s + 1, nullptr, 10));
+      Error e = Error::kOk;
+      F.armed = true;
+      switch (s[0]) {
+        case 'a': e = st.append(d.data(), d.size()); break;
+        case 's': e = st.assign(d.data(), d.size()); break;
+        case 'c': e = st.append_chars('z', n); break;
+        case 'C': e = st.assign_chars('z', n); break;
+        case 'x': e = st.clear(); break;
+        case 'r': e = st.reset(); break;
+        case 't': e = st.truncate(n); break;
+        default: e = Error::kInvalidArgument; break;
+      }
+      F.armed = false;
+      char buf[64];
+      snprintf(buf, sizeof(buf), " %d/%zu/%zu/%d", err_code(e), st.size(), st.capacity(), int(st.is_large_or_external()));
+      out += buf;
+      if (st.data()[st.size()] != 0) out += "!noterm";
+    }
+    nheap = F.n_heap;
+    F.mode = FM_NONE;
+    out += " | ";
+    if (st.is_empty()) out += "-";
+    char hx[4];
+    for (size_t i = 0; i < st.size(); i++) { snprintf(hx, sizeof(hx), "%02x", uint8_t(st.data()[i])); out += hx; }
+  }
+  out += " req=0," + std::to_string(nheap);
+  printf("%s\n", out.c_str());
+}
+
 static void run_script(const std::vector<std::string>& t) {
   if (t.size() < 3) { printf("BAD script\n"); return; }
   if (t[1] == "vec" && t.size() >= 4) {
@@ -483,8 +530,11 @@ static void run_script(const std::vector<std::string>& t) {
   else if (t[1] == "holder") script_holder(t);
   else if (t[1] == "builder") script_builder(t);
   else if (t[1] == "ra") script_ra(t);
+  else if (t[1] == "str") script_str(t);
   else if (t[1] == "vm") script_vm(t, false);
   else if (t[1] == "vmd") script_vm(t, true);
+  else if (t[1] == "jit") script_vm(t, false, true);
+  else if (t[1] == "jitd") script_vm(t, true, true);
   else printf("BAD script kind\n");
 }
 
